@@ -138,8 +138,18 @@ def tr_output(run):
     nstdio = len(re.findall(r"\b(fprintf|fputs|fwrite|fputc|dprintf|vfprintf)\s*\(", fb))
     if m_open:
         flags = set(x.strip() for x in m_open.group(1).split("|"))
-        v["file_open_append"] = {"O_WRONLY", "O_CREAT", "O_APPEND"} <= flags and "O_TRUNC" not in flags and "O_RDWR" not in flags
-        v["file_single_write"] = (nwrite == 1 and nstdio == 0 and not re.search(r"\b(while|for|do)\b", fb))
+        # exactly append-create-write; the only other flags that change nothing about where and whether the record lands are CLOEXEC / NOCTTY
+        extra_flags = flags - {"O_WRONLY", "O_CREAT", "O_APPEND", "O_CLOEXEC", "O_NOCTTY"}
+        v["file_open_append"] = {"O_WRONLY", "O_CREAT", "O_APPEND"} <= flags and not extra_flags
+        if extra_flags:
+            notes.append("translator: fileoutput.c opens its file with further flags %s" % sorted(extra_flags))
+        # the function (and the static helpers it uses) may call nothing but the pieces of open - build the line - write - close
+        known = {"snoopy_output_fileoutput", "strcmp", "strlen", "snoopy_message_generateFromFormat", "open", "malloc", "memcpy", "write", "free", "close",
+                 "if", "return", "sizeof"} | set(re.findall(r"^\s*static\s+[\w\s\*]+?\b(\w+)\s*\([^;{]*\)\s*\{", fo, re.M))
+        extra_calls = sorted(set(re.findall(r"\b([A-Za-z_]\w*)\s*\(", fb)) - known)
+        if extra_calls:
+            notes.append("translator: fileoutput.c calls %s besides open/write/close and the line assembly" % extra_calls)
+        v["file_single_write"] = (nwrite == 1 and nstdio == 0 and not extra_calls and not re.search(r"\b(while|for|do)\b", fb))
         v["file_open_desc"] = "open:" + "|".join(sorted(flags))
     elif m_fopen:
         mode = c_unescape(m_fopen.group(1))
